@@ -1,3 +1,5 @@
+import VlsModel.Gen.FnB3NodeFind
+import VlsModel.Gen.FnB3NodeFindM
 import VlsModel.Model.Onchain
 import VlsModel.Gen.FnSimple
 import VlsModel.Gen.FnOnchainTx
@@ -641,6 +643,34 @@ theorem C08_fn_allowlist_contains_payee (style : Style) (allow : List Wallet.All
 example : walletAddr .p2wpkh .native [3] = some (.addr .p2wpkh (.account [3])) ∧ walletAddr .p2wpkh .native [] = none
     ∧ walletAddr .p2tr .native [1, 2] = none := by decide
 
+/-- (round 10, b3) **`Node::check_wallet_pubkey`**: the submitted key is compared with the wallet key **at the submitted
+    path** (`get_wallet_pubkey`, tied above): `Ok(true)` exactly for the account key of that path, `Ok(false)` for every other
+    key (an xpub child, a foreign key, the account key of another path), `invalid_argument` for a path of the wrong length —
+    never `true` without the comparison.  `a.0 == b.inner` is the external equality of the two key wrappers, here `=`. -/
+theorem C08_fn_check_wallet_pubkey (style : Style) (allow : List Wallet.Allowable) (path : List Nat) (k : Key) :
+    Node.check_wallet_pubkey (ext_get_key_path_len := Style.keyPathLen) (ext_len := List.length)
+        (ext_account_privkey_at := fun p => Key.account p) (ext_pubkey_of := fun k => k)
+        (ext_same_inner_key := fun a b => decide (a = b)) (toNode style allow) path k
+      = optRes ((walletKey? style path).map (fun w => decide (w = k))) := by
+  unfold Node.check_wallet_pubkey
+  rw [C08_fn_get_wallet_pubkey]
+  cases walletKey? style path <;> rfl
+
+/-- … so an accepted key is the account key of the path, and of no other path -/
+theorem C08_fn_check_wallet_pubkey_sound (style : Style) (allow : List Wallet.Allowable) (path : List Nat) (k : Key)
+    (h : Node.check_wallet_pubkey (ext_get_key_path_len := Style.keyPathLen) (ext_len := List.length)
+        (ext_account_privkey_at := fun p => Key.account p) (ext_pubkey_of := fun k => k)
+        (ext_same_inner_key := fun a b => decide (a = b)) (toNode style allow) path k = .ok true) :
+    k = .account path := by
+  rw [C08_fn_check_wallet_pubkey] at h
+  unfold walletKey? at h
+  cases hk : style.keyPathLen with
+  | none => simp [hk, optRes] at h; exact h.symm
+  | some n =>
+    by_cases hl : path.length = n
+    · simp [hk, hl, optRes] at h; exact h.symm
+    · simp [hk, hl, optRes] at h
+
 end NodeWallet
 
 /-! ## Round 9: `vls-protocol-signer/src/approver.rs` (`Gen/FnApproverC08.lean`) and the `OnchainValidator` wrapper
@@ -1131,5 +1161,91 @@ example : claimedPath (PKh := Nat) (FP := Nat) (XO := Nat) (TL := Nat) [] [(1, (
     ∧ claimedPath (PKh := Nat) (FP := Nat) (XO := Nat) (TL := Nat) [] [] [(1, ([], (2, [5])))] = .ok [5] := ⟨rfl, rfl, rfl⟩
 
 end HandlerPaths
+
+/-! ## (round 10, b3) the channel lookup of `check_onchain_tx` / `unchecked_sign_onchain_tx`: `find_channel_with_funding_outpoint`
+
+`Gen.FnB3NodeFind` (node.rs, the free function and the `Node` method).  `check_onchain_tx` takes the lookup as the external
+`find_channel_with_funding_outpoint` (`C08_fn_check_onchain_tx`); this is the external's body.  The map is iterated in the
+order of the representing list, which the model does not know: the theorems hold for **every** list. -/
+
+section NodeFind
+open VlsModel.Gen.FnB3NodeFind
+
+variable {K T : Type} [DecidableEq T]
+
+/-- does this slot hold a Ready channel funded by `op`? -/
+def fundedBy (op : OutPoint T) : ChannelSlot T → Bool
+  | .Ready c => c.setup.funding_outpoint == op
+  | .Stub _ => false
+
+/-- the loop with the early `return` is `find?` on the slots: first Ready channel whose `setup.funding_outpoint` equals the
+    outpoint; stubs are skipped; it never fails -/
+theorem C08_fn_find_channel_with_funding_outpoint (chans : List (K × ChannelSlot T)) (op : OutPoint T) :
+    find_channel_with_funding_outpoint chans op = .ok ((chans.map Prod.snd).find? (fundedBy op)) := by
+  unfold find_channel_with_funding_outpoint
+  induction chans with
+  | nil => simp [Rs.loopM]
+  | cons c cs ih =>
+    obtain ⟨k, sl⟩ := c
+    simp only [Rs.loopM] at ih ⊢
+    cases sl with
+    | Stub st => simpa [fundedBy] using ih
+    | Ready ch =>
+      by_cases h : (ch.setup.funding_outpoint == op) = true
+      · simp [fundedBy, h]
+      · simpa [fundedBy, h] using ih
+
+/-- the `Node` method (`Gen.FnB3NodeFindM`; the free function of the same name is its external there) hands the node's own
+    channel map and the outpoint to the free function and returns its answer unchanged -/
+theorem C08_fn_node_find_channel_with_funding_outpoint {S O : Type} (ext : List (K × S) → O → Option S)
+    (n : Gen.FnB3NodeFindM.Node K S) (op : O) :
+    Gen.FnB3NodeFindM.Node.find_channel_with_funding_outpoint ext n op = ext n.channels op := rfl
+
+/-- soundness: what the lookup returns is a slot of the map, Ready, funded by exactly this outpoint (txid **and** vout)
+    — never a stub, never a channel with another funding outpoint -/
+theorem C08_fn_find_channel_sound (chans : List (K × ChannelSlot T)) (op : OutPoint T) (sl : ChannelSlot T)
+    (h : find_channel_with_funding_outpoint chans op = .ok (some sl)) :
+    sl ∈ chans.map Prod.snd ∧ ∃ c, sl = .Ready c ∧ c.setup.funding_outpoint = op := by
+  rw [C08_fn_find_channel_with_funding_outpoint] at h
+  have h' : (chans.map Prod.snd).find? (fundedBy op) = some sl := by injection h
+  refine ⟨List.mem_of_find?_eq_some h', ?_⟩
+  have hp := List.find?_some h'
+  cases sl with
+  | Stub st => simp [fundedBy] at hp
+  | Ready c => exact ⟨c, rfl, by simpa [fundedBy] using hp⟩
+
+/-- completeness: `None` exactly when no Ready channel of the map is funded by this outpoint (a funded channel output is
+    never treated as an unknown destination because the lookup missed it) -/
+theorem C08_fn_find_channel_none (chans : List (K × ChannelSlot T)) (op : OutPoint T) :
+    find_channel_with_funding_outpoint chans op = .ok none
+      ↔ ∀ sl ∈ chans.map Prod.snd, fundedBy op sl = false := by
+  rw [C08_fn_find_channel_with_funding_outpoint]
+  constructor
+  · intro h sl hm
+    have h' : (chans.map Prod.snd).find? (fundedBy op) = none := by injection h
+    have := List.find?_eq_none.mp h' sl hm
+    simpa using this
+  · intro h
+    have : (chans.map Prod.snd).find? (fundedBy op) = none := List.find?_eq_none.mpr (fun sl hm => by simp [h sl hm])
+    rw [this]
+
+/-- independence of the (unknown) iteration order: when the Ready channels funded by `op` are all the same slot `sl` (funding
+    outpoints are unique among ready channels), the lookup returns `sl` whatever the order of the map -/
+theorem C08_fn_find_channel_any_order (chans : List (K × ChannelSlot T)) (op : OutPoint T) (sl : ChannelSlot T)
+    (hin : sl ∈ chans.map Prod.snd) (hf : fundedBy op sl = true)
+    (huniq : ∀ s ∈ chans.map Prod.snd, fundedBy op s = true → s = sl) :
+    find_channel_with_funding_outpoint chans op = .ok (some sl) := by
+  rw [C08_fn_find_channel_with_funding_outpoint]
+  cases hr : (chans.map Prod.snd).find? (fundedBy op) with
+  | none => exact absurd hf (by simpa using List.find?_eq_none.mp hr sl hin)
+  | some s => rw [huniq s (List.mem_of_find?_eq_some hr) (List.find?_some hr)]
+
+example : find_channel_with_funding_outpoint
+    [(1, ChannelSlot.Stub ⟨⟩), (2, .Ready ⟨⟨⟨7, 1⟩⟩⟩), (3, .Ready ⟨⟨⟨7, 0⟩⟩⟩)] (⟨7, 0⟩ : OutPoint Nat)
+    = .ok (some (.Ready ⟨⟨⟨7, 0⟩⟩⟩)) := by rw [C08_fn_find_channel_with_funding_outpoint]; rfl
+example : find_channel_with_funding_outpoint [(1, ChannelSlot.Stub ⟨⟩), (2, .Ready ⟨⟨⟨7, 1⟩⟩⟩)] (⟨7, 0⟩ : OutPoint Nat)
+    = .ok none := by rw [C08_fn_find_channel_with_funding_outpoint]; rfl
+
+end NodeFind
 
 end VlsModel.Props.C08Fn
